@@ -22,5 +22,6 @@ CONSTANTS
   GzIdx = {1}
   GzFrs = {"cl"}
   GzDrops = {0}
+  GzKeeps = {}
   GzRespFrs = {"cl"}
 CHECK_DEADLOCK FALSE
